@@ -121,12 +121,29 @@ def accept_value(rng: random.Random) -> str:
     return rng.choice([",", ", ", " , "]).join(items)
 
 
+COOKIE_ESC = ["\\" + a + b + c for a in "01234567" for b in "0789" for c in "078"] + ["\\" + x for x in ['"', "\\", "a", "8", "9", ";", ",", " ", "=", "0", "07", "37", "40", "\xe9"]]
+
+
+def cookie_value(rng: random.Random) -> str:
+    """quoted cookie values with backslash escapes over the whole space: `\\` + three octal digits with a
+    first digit 0-7 (so also beyond \\377), `\\` + a non-octal character, `\\` at the end of the value / header"""
+    items = []
+    for _ in range(rng.choice([1, 1, 2, 3])):
+        body = "".join(rng.choice(COOKIE_ESC) if rng.random() < 0.6 else rng.choice(["a", "b", "1", " ", "=", "%41", "\xe9", "x y"]) for _ in range(rng.choice([1, 1, 2, 3, 5])))
+        close = rng.choice(['"', '"', '"', "", '\\"', "\\"])
+        items.append(rng.choice(["a", "sid", "k", ""]) + rng.choice(["=", "=", " = "]) + '"' + body + close)
+    return rng.choice(["; ", ";", " ; "]).join(items)
+
+
+COOKIE_TARGETS = {"cookie", "cookies"}
 DATE_TARGETS = {"date", "if_range", "if_modified_since", "if_unmodified_since"}
 ACCEPT_TARGETS = {"accept", "accept_mime", "accept_lang", "accept_charset", "accept_mimetypes", "accept_charsets", "accept_encodings", "accept_languages"}
 
 
 def hostile_for(target: str, rng: random.Random) -> str:
     """hostile text for one parser / attribute: its structured family half of the time, else the general one"""
+    if target in COOKIE_TARGETS and rng.random() < 0.5:
+        return cookie_value(rng)
     if target in DATE_TARGETS and rng.random() < 0.5:
         return boundary_date(rng)
     if target in ACCEPT_TARGETS and rng.random() < 0.4:
@@ -918,6 +935,9 @@ class Hostile(Stream):
             # int(): the ASCII separators U+001C..U+001F are white space for str.strip() but not for int()
             # HeaderSet constructor keeps a header given in two spellings once (repair 1a2e0e6, former F08c)
             ("set", "Cookie, cookie, X, COOKIE"), ("set", "\xc0, \xe0, a"), ("set", "a, \"A\", a"), ("set", ", ,"), ("set", "\xdf, SS, ss"),
+            # octal escapes of quoted cookie values over the whole space (family of seeded change C07-e2)
+            ("cookie", 'a="\\400"'), ("cookie", 'a="\\777"'), ("cookie", 'a="\\377"'), ("cookie", 'a="\\000"'), ("cookie", 'a="\\08"'), ("cookie", 'a="\\4"'), ("cookie", 'a="\\\\"'), ("cookie", 'a="\\'),
+            ("cookie", 'a="x\\477y"; b="\\141"'), ("cookie", 'a="\\8\\9\\;"'),
             ("age", "\u0967"), ("age", " \u0661_\u0662\u3000"), ("age", "\uff11\uff10"), ("age", "\u0967_"), ("cc_request", "max-age=\u0967\u0966"), ("cc_response", "s-maxage=\u0e51"),
             ("options", "text/plain; charset*0=utf-; charset*" + "1" * 4301 + "=8"), ("accept_mime", "text/html;level*" + "1" * 4301 + "=1"), ("age", "9" * 4301), ("range", "bytes=0-" + "9" * 4301),
             ("content_range", "bytes 0-1/" + "9" * 4301), ("cc_request", "max-age=" + "9" * 4301), ("accept_mime", "a;q=0." + "9" * 4301), ("date", "Thu, 01 Jan " + "9" * 4301 + " 00:00:00 GMT"),
@@ -927,7 +947,7 @@ class Hostile(Stream):
         + [{"k": "a", "attr": a, "env": {v: hs(s)}} for a, v, s in [
             ("args", "QUERY_STRING", "a=\xff"), ("full_path", "QUERY_STRING", "a=\xff"), ("values", "QUERY_STRING", "a=\xff&%ff=%"), ("url", "QUERY_STRING", "a=\xff"),
             ("accept_mimetypes", "HTTP_ACCEPT", "text/html;*=x"), ("accept_charsets", "HTTP_ACCEPT_CHARSET", "utf-8;*=x"), ("accept_encodings", "HTTP_ACCEPT_ENCODING", "gzip;*=x"),
-            ("accept_languages", "HTTP_ACCEPT_LANGUAGE", "en;*=x"), ("authorization", "HTTP_AUTHORIZATION", "Basic \xff\xfe"), ("cookies", "HTTP_COOKIE", "a=\xff"),
+            ("accept_languages", "HTTP_ACCEPT_LANGUAGE", "en;*=x"), ("authorization", "HTTP_AUTHORIZATION", "Basic \xff\xfe"), ("cookies", "HTTP_COOKIE", "a=\xff"), ("cookies", "HTTP_COOKIE", 'a="\\400"'), ("cookies", "HTTP_COOKIE", 'a="\\777"; b="\\377"'), ("cookies", "HTTP_COOKIE", 'a="\\101\\8"'),
             ("url", "HTTP_HOST", "a:b"), ("base_url", "HTTP_HOST", "["), ("host_url", "HTTP_HOST", "a:99999999"), ("url_root", "HTTP_HOST", "[zz]"), ("root_url", "HTTP_HOST", "a]"),
             ("cookies", "HTTP_COOKIE", 'sid="' + "\\" * 60), ("cookies", "HTTP_COOKIE", 'sid="' + "\\x" * 45), ("url", "HTTP_HOST", "[" * 80), ("host", "HTTP_HOST", ":" * 90),
             ("url", "PATH_INFO", "/" + "%" * 90), ("args", "QUERY_STRING", "&" * 60 + "=" * 60), ("args", "QUERY_STRING", "%" * 99), ("form", "CONTENT_TYPE", "multipart/form-data; boundary=" + '"' * 70),
@@ -1323,8 +1343,8 @@ def model_cc_get(d, key, empty, ty):
 
 CHECK = Check(
     prop="C07",
-    gen=["Http", "RequestGlue", "RequestSurface", "Regexes", "DateExc", "Cookie", "Urlencode", "Containers", "Multipart", "PyFns_Http", "PyFns_Internal", "PyFns_HttpDict", "PyFns_HttpOptions", "PyFns_Etag", "PyFns_Range", "PyFns_Response", "CacheSetTable", "Response", "ResponseProps", "UrlTables", "Views", "PyFns_FormGlue"],
-    modules=["WzVerif.Props.C07", "WzVerif.Props.C07T", "WzVerif.Props.C07T2"],
+    gen=["Http", "RequestGlue", "RequestSurface", "Regexes", "DateExc", "Cookie", "Urlencode", "Containers", "Multipart", "PyFns_Http", "PyFns_Internal", "PyFns_HttpDict", "PyFns_HttpOptions", "PyFns_Etag", "PyFns_Range", "PyFns_Response", "CacheSetTable", "Response", "ResponseProps", "UrlTables", "Views", "PyFns_FormGlue", "PyFns_Cookie"],
+    modules=["WzVerif.Props.C07", "WzVerif.Props.C07T", "WzVerif.Props.C07T2", "WzVerif.Props.C13T"],
     streams=[Hostile()],
     assumptions=[
         "round 3 (Props/C07T): the totality theorems for parse_list_header, parse_set_header, parse_dict_header, parse_cache_control_header, parse_options_header, parse_content_range_header, parse_age, parse_csp_header, parse_etags (texts without LF) and is_resource_modified are restated on the definitions regenerated from the source by tools/py2lean.py (Gen/PyFns_*.lean): the translation keeps every IndexError / ValueError / KeyError / TypeError the Python code could raise as an explicit error arm, and the theorems say no such arm is reachable; modelled, not verified on that route: the regexes (hand models of C06), urllib's parse_http_list / unquote, int(), the CPython string primitives of Util/PyPrelude.lean (validated by stream prelude-kernels in the checks that run it)",
